@@ -152,10 +152,13 @@ def run_session(c, shared_ds=None):
     universe = mk_universe(cfg['universe'])
     m = c['market']
     ds = None
-    if m['kind'] == 'table':
-        dh = TableDataHandler(m['rows'])
-    else:
-        dh, ds = csv_handler(m, universe, keep=shared_ds)
+    try:
+        if m['kind'] == 'table':
+            dh = TableDataHandler(m['rows'])
+        else:
+            dh, ds = csv_handler(m, universe, keep=shared_ds)
+    except Exception as e:
+        return {'init': errname(e)}, None
     signals = None
     lbs = cfg.get('lookbacks')
     if lbs is not None:
@@ -274,6 +277,12 @@ def handler(c):
                     pass
         b, _ = run_session(c, shared_ds=ds)
         return {'first': a, 'second': b}
+    if c.get('mode') == 'pair':
+        a, _ = run_session(c)
+        c2 = dict(c)
+        c2['market'] = c['market2']
+        b, _ = run_session(c2)
+        return {'a': a, 'b': b}
     out, _ = run_session(c)
     return out
 
